@@ -217,8 +217,8 @@ func c12RunSite(ctx *core.Ctx, site string, ref core.CaseRef, r *rand.Rand, nrow
 		fmt.Printf("DEBUG general-path bare text at %s: %q (site text %q)\n", site, fast, c12SiteText(site, sqlF))
 	}
 	if pg != "general" && pg != "compile_error" {
-		ctx.Inconclusive("parenthesised twin not reported on the general path at site " + site + " (" + pg + ")")
-		return
+		// the twin is no independent comparator then; the reference clause below still judges both decisions
+		ctx.Count(site+".parenthesised_twin_not_on_the_general_path", 1)
 	}
 
 	var dF, dG []bool
